@@ -381,9 +381,14 @@ def rand_double(r):
         return r.choice([1, -1]) * 10.0 ** r.randint(-12, 22) * r.choice([1.0, 1.5, 9.999, 1.0000001])
     if k < 0.7:
         return round(r.uniform(-300, 300), r.randint(0, 6))
-    if k < 0.85:
+    if k < 0.8:
         return r.uniform(-1e-4, 1e-4)
-    return r.choice([0.0, -0.0, 1e-05, 9.999e-05, 0.0001, 1e16, 9.9e15, 123456789012345680.0, 5e-324, 1.7976931348623157e308])
+    if k < 0.88:
+        # repr uses exponent notation from 1e16 on; with 17 significant digits the decimal point of
+        # the plain expansion falls exactly at the end of the digit string
+        return r.choice([1, -1]) * r.uniform(1e16, 1e17)
+    return r.choice([0.0, -0.0, 1e-05, 9.999e-05, 0.0001, 1e16, 9.9e15, 123456789012345680.0, 5e-324,
+                     1.7976931348623157e308, 1.2345678901234568e+16, 9.007199254740993e+16])
 
 
 # ------------------------------------------------------------------------------- region suite
